@@ -64,26 +64,28 @@ Fixpoint pop_loop (kept : list chunk) (run : run_state) (rest : list chunk) (seq
   match rest with
   | [] => (retained kept run [], seq, [])
   | c :: rest' =>
-      let in_run (r : list chunk) (expected : Z) (ordered : bool) :=
+      let in_run (kept0 : list chunk) (r : list chunk) (expected : Z) (ordered : bool) :=
         if last c then
           let msg := (sid c, ppid c, join_data (rev (c :: r))) in
           let seq' := if ordered && Z.eqb (sseq c) seq then uint16_add seq 1 else seq in
-          let '(l, s, ms) := pop_loop kept None rest' seq' in
+          let '(l, s, ms) := pop_loop kept0 None rest' seq' in
           (l, s, msg :: ms)
-        else pop_loop kept (Some (c :: r, tsn_plus_one expected, ordered)) rest' seq in
+        else pop_loop kept0 (Some (c :: r, tsn_plus_one expected, ordered)) rest' seq in
+      (* no candidate run: c is looked at as a possible first fragment *)
+      let start (kept0 : list chunk) :=
+        let ordered := negb (unordered c) in
+        if negb (first c) then
+          if ordered then (retained kept0 None rest, seq, [])
+          else pop_loop (c :: kept0) None rest' seq
+        else if ordered && uint16_gt (sseq c) seq then (retained kept0 None rest, seq, [])
+        else in_run kept0 [] (tsn c) ordered in
       match run with
-      | None =>
-          let ordered := negb (unordered c) in
-          if negb (first c) then
-            if ordered then (retained kept None rest, seq, [])
-            else pop_loop (c :: kept) None rest' seq
-          else if ordered && uint16_gt (sseq c) seq then (retained kept None rest, seq, [])
-          else in_run [] (tsn c) ordered
+      | None => start kept
       | Some (r, expected, ordered) =>
           if negb (Z.eqb (tsn c) expected) then
             if ordered then (retained kept run rest, seq, [])
-            else pop_loop (c :: r ++ kept) None rest' seq
-          else in_run r expected ordered
+            else start (r ++ kept)       (* the run is incomplete: c is looked at again *)
+          else in_run kept r expected ordered
       end
   end.
 
